@@ -1,6 +1,6 @@
 (* C08 — when the connection ends, every request resolves and the failure is reported.
    Statements only. *)
-From MPD Require Import Bytes Tables BuilderModel LoopModel LoopProofs LoopSpec ServerModel DriverLoop LoopRefine LoopRefineProofs LoopDrainProofs.
+From MPD Require Import Bytes Tables BuilderModel LoopModel LoopProofs LoopSpec ServerModel DriverLoop LoopRefine LoopRefineProofs LoopDrainProofs LoopCancel LoopCancelProofs LoopCancelDrainProofs.
 Open Scope N_scope.
 
 (* no responder is ever forgotten: at every resumption each responder the loop holds (or has just
@@ -90,6 +90,16 @@ Theorem c08_exec_rerr_resolves : forall cf labs gls, in_fragment cf labs gls ->
              all_resolved gls segs (snd (fst (apply_label_g xf (b "r")))) g'.
 Proof. exact exec_rerr_resolves. Qed.
 
+(* ... and when reads fail and the loop leaves, the failure reaches somebody: a caller is handed the protocol error, or the
+   event stream gets ConnectionClosed *)
+Theorem c08_exec_rerr_reported : forall cf labs gls, in_fragment cf labs gls ->
+  let xf := fst (xrun (xinit cf) labs) in
+  forall g', snd (apply_label_g xf (b "r")) = Some g' ->
+  x_pt (snd (fst (apply_label_g xf (b "r")))) = PExited ->
+  (exists t, In t (g_ev g') /\ exists k, t = b "ev:closed(" ++ show_closekind k ++ b ")") \/
+  (exists id pe, In (id, show_cmd_result (CRProto pe)) (g_res g')).
+Proof. exact exec_rerr_reported. Qed.
+
 (* [all_resolved] spelled out *)
 Theorem c08_all_resolved_means : forall gls segs x' g', all_resolved gls segs x' g' <->
   (x_pt x' = PExited \/ (x_pt x' = PWindow /\ x_queue x' = [])) /\
@@ -108,6 +118,35 @@ Theorem c08_exec_drain_step : forall cf x rs g, DInv cf x rs ->
   end.
 Proof. exact drain_step. Qed.
 
+(* ---- ... and when callers have given up before the connection ends (LoopCancelDrainProofs.v) ----
+   For every label list in the domain of the cancellation theorem (Props/C01.v) whose erasure lies in the fault-free fragment,
+   followed by the end of the stream (or by failing reads): the loop is quiet, NOBODY is left waiting, nothing panics, and the results
+   handed out before and by the fault are those of all issued requests in issue order with only results of cancelled callers
+   missing — a caller that has not given up is always told. *)
+Theorem c08_exec_cancel_eof_resolves : forall cf ls gls, cancel_ok [] ls = true -> in_fragment cf (map erase_label ls) gls ->
+  all_resolved_but (cancels ls) gls (snd (xrun (xinit cf) (ls ++ [b "e"]))) (fst (xrun (xinit cf) (ls ++ [b "e"]))).
+Proof. exact exec_cancel_eof_resolves. Qed.
+
+Theorem c08_exec_cancel_rerr_resolves : forall cf ls gls, cancel_ok [] ls = true -> in_fragment cf (map erase_label ls) gls ->
+  all_resolved_but (cancels ls) gls (snd (xrun (xinit cf) (ls ++ [b "r"]))) (fst (xrun (xinit cf) (ls ++ [b "r"]))).
+Proof. exact exec_cancel_rerr_resolves. Qed.
+
+Theorem c08_all_resolved_but_means : forall call gls segs x',
+  all_resolved_but call gls segs x' <->
+  (quiet x' /\ x_callers x' = [] /\
+   (exists full, dropped call (flat_map g_res segs) full /\ map fst full = map q_id (flat_map issued_of gls)) /\
+   Forall (fun g => g_panic g = false) segs).
+Proof. intros. reflexivity. Qed.
+
+(* request 1 cancelled in flight, request 2 queued, then the stream ends: request 2 is told, nobody waits *)
+Example c08_cancel_eof_example :
+  cancel_ok [] ex_cancel_eof_labs = true /\
+  in_fragment ex_cf (map erase_label ex_cancel_eof_labs)
+    [GNotify (b "player"); GIssue 1 (b "status"); GIssue 2 (b "stats"); GServe true; GDeliver 3; GTick 0; GDeliver 0] /\
+  map fst (flat_map g_res (snd (xrun (xinit ex_cf) (ex_cancel_eof_labs ++ [b "e"])))) = [2] /\
+  map fst (flat_map g_res (snd (xrun (xinit ex_cf) (map erase_label ex_cancel_eof_labs ++ [b "e"])))) = [1; 2].
+Proof. exact ex_cancel_eof. Qed.
+
 Print Assumptions c08_responders_accounted.
 Print Assumptions c08_one_closing_event.
 Print Assumptions c08_dead_transport_exits.
@@ -116,4 +155,7 @@ Print Assumptions c08_dead_transport_resolves_all.
 Print Assumptions c08_queue_taken_in_order.
 Print Assumptions c08_exec_eof_resolves.
 Print Assumptions c08_exec_rerr_resolves.
+Print Assumptions c08_exec_rerr_reported.
 Print Assumptions c08_exec_drain_step.
+Print Assumptions c08_exec_cancel_eof_resolves.
+Print Assumptions c08_exec_cancel_rerr_resolves.
